@@ -109,9 +109,11 @@ theorem createDataFrame_rejected (s : Store) (b : ObjId) (n t i c : String) (ns 
     · simp [hd]
     · simp only [hd] at h ⊢
       obtain ⟨s', g, hk⟩ := createInBlock_ok_of_checks s b "D" n t i c hc (by simpa using hd)
-      cases hscan : createDataFrame.scan [] ns ts with
-      | some e' => simp
-      | none => simp [hscan, hk] at h
+      by_cases hemp : ns.isEmpty = true
+      · simp [hemp]
+      · cases hscan : createDataFrame.scan [] ns ts with
+        | some e' => simp [hemp]
+        | none => simp [hemp, hscan, hk] at h
 
 theorem createProperty_rejected (s : Store) (sec : ObjId) (n i c dt : String) (e : Err)
     (h : (createProperty s sec n i c dt).2 = .error e) : (createProperty s sec n i c dt).1 = s := by
